@@ -51,10 +51,21 @@ static void note_site(void) {
     if (dladdr((void *)&note_site, &di)) base = (uintptr_t)di.dli_fbase;
     for (int i = 3; i < n && g_npcs < 6; i++) g_pcs[g_npcs++] = (uintptr_t)bt[i] - base - 1;
 }
+/* trace mode (FI_TRACE=<file>): one line "phase k kind pc" per counted creation, pc = library call site relative to the load base */
+static FILE *g_trace = NULL; static uintptr_t g_base = 0;
+static void trace_call(int kind, long k) {
+    void *bt[6]; int ph = g_phase; g_phase = -1;
+    int n = backtrace(bt, 6);
+    if (!g_base) { Dl_info di; if (dladdr((void *)&trace_call, &di)) g_base = (uintptr_t)di.dli_fbase; }
+    /* bt[0]=trace_call bt[1]=hit bt[2]=__wrap_x bt[3]=library caller */
+    fprintf(g_trace, "%d %ld %d %lu %lu\n", ph, k, kind, n > 3 ? (unsigned long)((uintptr_t)bt[3] - g_base - 1) : 0UL, n > 4 ? (unsigned long)((uintptr_t)bt[4] - g_base - 1) : 0UL);
+    g_phase = ph;
+}
 /* returns 1 if this call must fail */
 static int hit(int kind) {
     if (!t_main || g_phase < 0) return 0;
     long k = ++g_count[g_phase]; g_kind[g_phase][kind]++;
+    if (g_trace) trace_call(kind, k);
     if (g_phase == g_fail_phase && k == g_fail_k && !g_fired) {
         g_fired = 1; g_fired_kind = kind;
         int ph = g_phase; g_phase = -1;        /* backtrace/dladdr may allocate: not counted */
@@ -89,6 +100,7 @@ int main(int argc, char **argv) {
     int counting = !strcmp(argv[2], "count");
     if (!counting) { g_fail_phase = atoi(argv[3]); g_fail_k = atol(argv[4]); }
     pthread_t wd; __real_pthread_create(&wd, NULL, watchdog, NULL);
+    if (getenv("FI_TRACE")) { void *w[2]; backtrace(w, 2); /* load libgcc's unwinder outside any phase */ g_trace = fopen(getenv("FI_TRACE"), "w"); }
     t_main = 1;
     int rc[4] = {0, 0, 0, 0}, ran[4] = {0, 0, 0, 0};
     int threads0 = count_threads();
@@ -143,5 +155,6 @@ int main(int argc, char **argv) {
     for (int p = 0; p < 4; p++) { printf("%s[", p ? "," : ""); for (int k = 0; k < 8; k++) printf("%s%ld", k ? "," : "", g_kind[p][k]); printf("]"); }
     printf("],\"done\":1}\n");
     fflush(stdout);
+    if (g_trace) fclose(g_trace);
     _exit(0);
 }
